@@ -218,10 +218,9 @@ fn any_field(rng: &mut Rng, keys: &Keys) -> GF {
     }
 }
 
-/// C02 on the TYPED extra field as a whole: `serialize(ExtraField(fields))` is the varint of the payload length followed by the
-/// by-the-book layout of each field (written here, not by the library), the reported length is the number of bytes written (also through a
-/// short-writing sink), the blob parses back as a `RawExtraField` holding exactly the payload, and `RawExtraField::from` gives the same
-/// payload. Field sizes sweep every length 0..=255 for nonces / miner-gate blobs and the count boundaries 63/64/127/128/129 of additional keys
+/// C02 on the TYPED extra field as a whole: the reported length of `serialize(ExtraField(fields))` is the number of bytes written (also
+/// through a short-writing sink), the bytes parse strictly as a `RawExtraField` whose sub-fields parse back to the same typed value, and
+/// `RawExtraField::from` gives the same blob (round trip and length only: the byte LAYOUT is C03's / C16's clause, not C02's). Field sizes sweep every length 0..=255 for nonces / miner-gate blobs and the count boundaries 63/64/127/128/129 of additional keys
 /// (where a length computed separately from the bytes written goes wrong), alone and between other fields.
 pub fn run_extrafield_enc(o: &mut Out, rng: &mut Rng, n: usize) {
     use monero::consensus::encode::{deserialize, serialize, Encodable};
@@ -234,18 +233,19 @@ pub fn run_extrafield_enc(o: &mut Out, rng: &mut Rng, n: usize) {
     for _ in 0..n { let k = rng.range(1, 5) as usize; cases.push((0..k).map(|i| wf_field(rng, &keys, i == 0)).collect()); }
     for fs in cases {
         let subs: Option<Vec<SubField>> = fs.iter().map(to_sub).collect(); let subs = match subs { Some(x) => x, None => continue };
-        let mut payload = vec![]; for f in &fs { layout(f, &mut payload); }
-        let mut want = vec![]; varint(payload.len() as u64, &mut want); want.extend_from_slice(&payload);
         let ex = ExtraField(subs); let id = format!("extrafield [{}]", fs.iter().map(|f| match f { GF::Pad(k) => format!("pad{}", k), GF::Key(_) => "key".into(), GF::Nonce(v) => format!("nonce{}", v.len()), GF::MM(d, _, _) => format!("mm{}", d), GF::Add(v) => format!("add{}", v.len()), GF::Gate(v) => format!("gate{}", v.len()) }).collect::<Vec<_>>().join(" "));
         let mut w = vec![]; let len = ex.consensus_encode(&mut w).unwrap();
-        o.direct(w == want, "C02: serialize(ExtraField) == varint(payload length) | layout of each sub-field", id.clone(), crate::common::trunc(&hex(&w), 300), crate::common::trunc(&hex(&want), 300));
         o.direct(len == w.len(), "C02: ExtraField::consensus_encode reports the number of bytes written", id.clone(), len.to_string(), w.len().to_string());
         let (cw, cl) = crate::common::encode_chunked(&ex);
         o.direct(cw == w && cl == Some(w.len()), "C02: ExtraField::consensus_encode into a short-writing io::Write gives the same bytes and count", id.clone(), format!("{} bytes, reported {:?}", cw.len(), cl), format!("{} bytes", w.len()));
+        // round trip: the bytes parse strictly as the raw extra blob, whose sub-fields parse back to the typed value
         let back = deserialize::<RawExtraField>(&w);
-        o.direct(back.as_ref().map(|r| r.0 == payload).unwrap_or(false), "C02: deserialize::<RawExtraField>(serialize(ExtraField)) holds exactly the payload", id.clone(), format!("{:?}", back.as_ref().map(|r| r.0.len())), format!("Ok({})", payload.len()));
-        let raw = crate::common::guarded(|| RawExtraField::from(ex.clone()));
-        o.direct(raw.as_ref().map(|r| r.0 == payload).unwrap_or(false), "C02: RawExtraField::from(ExtraField) holds exactly the payload", id.clone(), format!("{:?}", raw.as_ref().map(|r| r.0.len())), format!("Ok({})", payload.len()));
+        o.direct(back.is_ok(), "C02: serialize(ExtraField) parses strictly as a RawExtraField (length prefix == bytes that follow)", id.clone(), format!("{:?}", back.as_ref().map(|r| r.0.len())), "Ok".into());
+        if let Ok(raw) = &back {
+            let again = ExtraField::try_parse(raw);
+            o.direct(again.as_ref() == Ok(&ex), "C02: try_parse(deserialize(serialize(ExtraField))) == the ExtraField", id.clone(), crate::common::trunc(&format!("{:?}", again), 200), "Ok(the value)".into());
+            let conv = crate::common::guarded(|| RawExtraField::from(ex.clone()));
+            o.direct(conv.as_ref().map(|r| r == raw).unwrap_or(false), "C02: RawExtraField::from(ExtraField) == the parsed-back blob", id.clone(), format!("{:?}", conv.as_ref().map(|r| r.0.len())), format!("Ok({})", raw.0.len())); }
         o.direct(serialize(&ex) == w, "C02: serialize == consensus_encode", id, "differs".into(), "same".into());
         o.stat("extrafield_enc");
     }
